@@ -808,6 +808,8 @@ func c15Propagation(c *Ctx, fns []*ssa.Function, _ int) {
 						c.ok("C15.5", fmt.Sprintf("%s: error of %s is returned", fnName(f2), cs.callee), why)
 					} else if returnsCallDirectly(call) || returnedViaNamedResult(call) {
 						c.ok("C15.5", fmt.Sprintf("%s: result of %s is returned directly", fnName(f2), cs.callee), "return operand is the call")
+					} else if errorComponentOnEveryReturn(call) {
+						c.ok("C15.5", fmt.Sprintf("%s: error of %s is the error operand of every return after the call", fnName(f2), cs.callee), "unconditional hand-over (`x, err := f(); report(x, err); return err`)")
 					} else {
 						c.fail("C15.5", cons, L.pos(cs.instr.Pos()), fmt.Sprintf("the error of %s is not passed on by %s", cs.callee, fnName(f2)), why)
 					}
@@ -865,6 +867,43 @@ func walkCallbackIn(cs callSite, targets map[*ssa.Function]bool) bool {
 		}
 	}
 	return false
+}
+
+// errorComponentOnEveryReturn: the error component of the call is, unchanged, the last operand of every return that can follow the
+// call (`x, err := f(); report(x, err); return err`): nothing between the call and the return can turn a failure into a nil.
+func errorComponentOnEveryReturn(call *ssa.Call) bool {
+	if call.Referrers() == nil {
+		return false
+	}
+	var errv ssa.Value
+	res := call.Common().Signature().Results()
+	switch {
+	case res.Len() == 1 && isErrorType(res.At(0).Type()):
+		errv = call
+	case res.Len() > 1 && isErrorType(res.At(res.Len()-1).Type()):
+		for _, r := range *call.Referrers() {
+			if ex, ok := r.(*ssa.Extract); ok && ex.Index == res.Len()-1 {
+				if errv != nil {
+					return false
+				}
+				errv = ex
+			}
+		}
+	}
+	if errv == nil {
+		return false
+	}
+	n := 0
+	for _, ret := range returnsOf(call.Parent()) {
+		if !reachableAfter(call, ret) {
+			continue
+		}
+		if len(ret.Results) == 0 || ret.Results[len(ret.Results)-1] != errv {
+			return false
+		}
+		n++
+	}
+	return n > 0
 }
 
 func returnsCallDirectly(call *ssa.Call) bool {
